@@ -503,6 +503,25 @@ pub fn execute(c: &SlCase, which: &str) -> Run {
                             }
                         }
                     }
+                    if which == "C11" {
+                        // the annualization period handed to EITHER builder entry point is the one the simulation reports with
+                        let n = c.link_len.len();
+                        let lm = location_map(&[("A", vec![1]), ("B", vec![n])]);
+                        let b = builder(&c.train, Some(("A", "B")), Some(InitTrainState::new(Some(c.t0 * uc::S), None, None)), Some(1));
+                        for (days, year) in [(Some(7), Some(2030)), (Some(7), None), (None, Some(2030)), (Some(30), Some(7))] {
+                            let want = 365.25 / days.unwrap_or(1) as f64;
+                            run.checks += 2;
+                            let a = b.make_speed_limit_train_sim(&lm, Some(1), days, year).map(|s| s.get_scaling_factor(true));
+                            let p = b.make_speed_limit_train_sim_and_parts(&lm, Some(1), days, year).map(|s| s.0.get_scaling_factor(true));
+                            for (name, got) in [("make_speed_limit_train_sim", a), ("make_speed_limit_train_sim_and_parts", p)] {
+                                match got {
+                                    Ok(k) if close_tol(k, want, 1e-12, 0.0) => {}
+                                    Ok(k) => run.fails.push((format!("annualization-period-not-the-one-given@TrainSimBuilder::{name}"), format!("simulation_days={days:?} scenario_year={year:?}: annualization factor {k}, documented 365.25 / simulation_days = {want}"))),
+                                    Err(e) => run.fails.push((format!("valid-train-rejected@TrainSimBuilder::{name}"), format!("{e:#}"))),
+                                }
+                            }
+                        }
+                    }
                     // binding: the same schedule through the real walk() on a fresh object (whole-path mode)
                     if c.mode == Mode::Whole {
                         let mut fresh = build_sim(c, &net).unwrap();
